@@ -879,6 +879,29 @@ pub fn locals_family() -> Vec<Member> {
 // ------------------------------------------------------------------------------------------
 
 pub const CUSTOM_NAMES: [&str; 6] = ["a", "b", "", ".debu", "nameX", "producersX"];
+/// names that tool conventions give a meaning (walrus interprets none of them) with payloads whose
+/// prefix is well-formed for that convention, so that a reader which classifies sections by name
+/// recognises them
+pub fn tool_convention_customs() -> Vec<(&'static str, Vec<u8>)> {
+    vec![
+        ("dylink.0", vec![1, 4, 0, 0, 0, 0]),
+        ("dylink", vec![0, 0, 0, 0, 0]),
+        ("linking", vec![2]),
+        ("linking", vec![2, 8, 1, 0]),
+        ("reloc.CODE", vec![3, 0]),
+        ("reloc.DATA", vec![5, 0]),
+        ("metadata.code.branch_hint", vec![0]),
+        ("component-name", vec![0, 1, b'c']),
+        ("target_features", vec![1, b'+', 3, b's', b'i', b'm']),
+        ("sourceMappingURL", vec![3, b'a', b'.', b'm']),
+        ("external_debug_info", vec![1, b'x']),
+        ("build_id", vec![2, 0xaa, 0xbb]),
+        ("core", vec![0, 1, b'p']),
+        ("coremodules", vec![0]),
+        ("coreinstances", vec![0]),
+        ("corestack", vec![0, 1, b't', 0]),
+    ]
+}
 pub const CUSTOM_SIZES: [usize; 4] = [0, 1, 127, 128];
 
 fn customs_base() -> MB {
@@ -940,6 +963,15 @@ pub fn customs_family(tier: Tier) -> Vec<Member> {
         uleb(body.len() as u64, &mut w);
         w.extend_from_slice(&body);
         out.push(Member { family: "customs", coords: format!("[padded-name-leb:{}:{}]", nm, pad), wasm: w });
+    }
+    // sections with tool-convention names (in front of everything, and at the end)
+    for (k, (n, pl)) in tool_convention_customs().into_iter().enumerate() {
+        for gap in [0usize, 12] {
+            let mut mb = base.clone();
+            mb.customs.push((gap, n.to_string(), pl.clone()));
+            mb.customs.push((12, "a".to_string(), payload(2, 9)));
+            out.push(Member { family: "customs", coords: format!("tool-convention #{} {} gap={}", k, n, gap), wasm: mb.build() });
+        }
     }
     // modules without (live) code: nothing but custom sections; imports only; a memory export
     // and one function that nothing reaches (gc removes all code)
@@ -1756,10 +1788,74 @@ pub fn build_brtable(targets: &[u32], default: u32, typed: bool) -> Vec<u8> {
     mb.build()
 }
 
+/// two `br_table`s with `n` entries each over the same three labels, in every relative position of
+/// the second one: inside the same block as the first, right after the `end` of a block that holds
+/// the first (no construct opened in between), and inside a sibling block
+pub fn build_brtable_pair(n: usize, shape: u8) -> Vec<u8> {
+    let mut mb = MB::default();
+    let t1 = mb.ty(&[I32], &[I32]);
+    let table = |depth_shift: u32, out: &mut Vec<u8>| {
+        out.extend_from_slice(&local_get(0));
+        out.push(0x0e);
+        uleb(n as u64, out);
+        for k in 0..n {
+            uleb((k % 3) as u64 + depth_shift as u64, out);
+        }
+        uleb(depth_shift as u64, out);
+    };
+    let mut code = cat(&[&i32_const(8400), &[DROP]]);
+    // three result-less labels; each exit records itself in the parameter local
+    for _ in 0..3 {
+        code.extend_from_slice(&[0x02, 0x40]);
+    }
+    match shape {
+        0 => {
+            // first table inside an extra block, the second right after that block's end
+            code.extend_from_slice(&[0x02, 0x40]);
+            code.extend_from_slice(&cat(&[&local_get(0), &i32_const(64), &[0x49], &[0x0d, 0x00]])); // br_if 0 when param < 64: skip the first table
+            table(1, &mut code);
+            code.push(END);
+            table(0, &mut code);
+        }
+        1 => {
+            // both in the same sequence (the second is dead code after the first)
+            table(0, &mut code);
+            table(0, &mut code);
+        }
+        _ => {
+            // first in one sibling block, second in another
+            code.extend_from_slice(&[0x02, 0x40]);
+            code.extend_from_slice(&cat(&[&local_get(0), &i32_const(64), &[0x49], &[0x0d, 0x00]]));
+            table(1, &mut code);
+            code.push(END);
+            code.extend_from_slice(&[0x02, 0x40]);
+            table(1, &mut code);
+            code.push(END);
+        }
+    }
+    code.push(END);
+    for add in [100, 1000] {
+        code.extend_from_slice(&cat(&[&local_get(0), &i32_const(add), &[0x6a], &local_set(0)]));
+        code.push(END);
+    }
+    code.extend_from_slice(&cat(&[&local_get(0), &i32_const(10000), &[0x6a], &local_set(0)]));
+    code.extend_from_slice(&local_get(0));
+    code.push(END);
+    let f = mb.func(t1, vec![], code);
+    mb.export("f", 0, f);
+    mb.build()
+}
+
 pub fn ctrl_family(tier: Tier) -> Vec<Member> {
     let k = if tier == Tier::Quick { 3 } else { 4 };
     let mut memo = vec![];
     let mut out = vec![];
+    // pairs of br_tables around the sizes where an implementation may switch strategy
+    for n in if tier == Tier::Quick { vec![1usize, 15, 16, 17, 64] } else { vec![1usize, 2, 7, 8, 9, 15, 16, 17, 31, 32, 33, 64, 255, 256, 257] } {
+        for shape in 0..3u8 {
+            out.push(Member { family: "ctrl", coords: format!("brtable-pair n={} shape={}", n, shape), wasm: build_brtable_pair(n, shape) });
+        }
+    }
     // br_table: every target vector over the three labels up to length 2 (quick) / 3, every default
     let maxlen = if tier == Tier::Quick { 2 } else { 3 };
     for len in 0..=maxlen {
@@ -1821,6 +1917,20 @@ pub fn minimal_family() -> Vec<Member> {
         ("dup-import-global-second-used", r#"(module (import "env" "g" (global $a i32)) (import "env" "g" (global $b i32)) (func (export "run") (result i32) (i32.const 8305) (drop) (global.get $b)))"#),
         ("dup-import-table-first-used", r#"(module (import "env" "t" (table $a 1 funcref)) (import "env" "t" (table $b 2 funcref)) (func (export "run") (result i32) (i32.const 8306) (drop) (table.size $a)))"#),
         ("dup-import-mixed-kinds", r#"(module (import "env" "x" (func $f)) (import "env" "x" (global $g i32)) (import "env" "x" (table $t 1 funcref)) (func (export "run") (result i32) (i32.const 8307) (drop) (global.get $g)))"#),
+        // a ref.func target whose only declaration is the initialiser of a global nothing reaches
+        ("ref-func-declared-only-by-dead-global", r#"(module (func $f) (global $dead funcref (ref.func $f)) (func (export "run") (i32.const 8330) (drop) (drop (ref.func $f))))"#),
+        ("ref-func-declared-only-by-dead-passive-elem-exprs", r#"(module (func $f) (elem $dead funcref (ref.func $f)) (func (export "run") (i32.const 8331) (drop) (drop (ref.func $f))))"#),
+        // the start function is an import
+        ("start-is-an-import", r#"(module (import "a" "f" (func $f)) (start $f))"#),
+        ("start-is-an-import-among-locals", r#"(module (import "a" "g" (func $g (param i32))) (import "a" "f" (func $f)) (func (export "run") (i32.const 8332) (call $g)) (start $f))"#),
+        // 64-bit imported table and memory, used in every index-typed position
+        ("imported-table64-used", r#"(module (import "env" "t" (table $t i64 2 funcref)) (func $f) (elem (table $t) (i64.const 0) func $f)
+            (func (export "run") (result i64) (i32.const 8333) (drop) (table.set $t (i64.const 1) (table.get $t (i64.const 0))) (drop (table.grow $t (ref.null func) (i64.const 0))) (table.size $t)))"#),
+        ("imported-memory64-used", r#"(module (import "env" "m" (memory $m i64 1)) (data (memory $m) (i64.const 0) "x")
+            (func (export "run") (result i64) (i32.const 8334) (drop) (i64.store (i64.const 8) (i64.load (i64.const 0))) (memory.size)))"#),
+        // an unused function import ahead of imports that stay: gc deletes the first import entry
+        ("unused-func-import-before-imported-memory", r#"(module (import "a" "f" (func)) (import "a" "g" (global $g i32)) (import "a" "m" (memory 1)) (func (export "r") (result i32) (i32.const 8335) (drop) (i32.load (global.get $g))))"#),
+        ("unused-imports-before-imported-table", r#"(module (import "a" "f" (func)) (import "a" "g" (global i32)) (import "a" "t" (table 2 funcref)) (type $v (func)) (func (export "r") (i32.const 8336) (drop) (call_indirect (type $v) (i32.const 0))))"#),
         // empty segments of every mode, referenced by the instructions that may name them
         ("empty-declared-elem-dropped", r#"(module (table 1 funcref) (elem $d declare func) (func (export "f") (i32.const 8320) (drop) (elem.drop $d)))"#),
         ("empty-declared-elem-table-init", r#"(module (table 1 funcref) (elem $d declare funcref) (func (export "f") (i32.const 8321) (drop) (table.init $d (i32.const 0) (i32.const 0) (i32.const 0))))"#),
